@@ -2,7 +2,7 @@
 (* GEN for C12: event matrices x container x channel form; the final action      *)
 (* computes every statistic of every requested channel.                          *)
 EXTENDS Stats, TLC
-CONSTANTS MaxN, Wide
+CONSTANTS MaxN, Wide, Four        \* Four: a 4-channel sample (columns 3 and 4 derived) with longer channel lists
 VARIABLES stage, scn, out
 vars == <<stage, scn, out>>
 
@@ -13,6 +13,11 @@ Form(t, xs, named) == [t |-> t, xs |-> xs, named |-> named]
 Forms == {Form("absent", <<>>, <<>>), Form("pos", <<0>>, <<0>>), Form("pos", <<1>>, <<0>>), Form("name", <<1>>, <<1>>),
           Form("list", <<0, 1>>, <<0, 0>>), Form("list", <<1, 0>>, <<1, 0>>), Form("list", <<1>>, <<1>>),
           Form("list", <<0>>, <<0>>), Form("list", <<1, 1>>, <<0, 1>>)}
+Forms4 == {Form("list", <<0, 2, 1, 3>>, <<0, 0, 0, 0>>), Form("list", <<0, 2, 1, 3>>, <<1, 1, 1, 1>>), Form("list", <<1, 1, 3>>, <<0, 1, 0>>),
+           Form("list", <<3, 0>>, <<0, 1>>), Form("list", <<2, 3, 1>>, <<1, 0, 0>>), Form("list", <<0, 1, 2, 3>>, <<0, 0, 0, 0>>),
+           Form("list", <<3, 2, 1, 0>>, <<0, 0, 1, 1>>), Form("absent", <<>>, <<>>), Form("pos", <<2>>, <<0>>), Form("name", <<3>>, <<1>>)}
+Col3(c) == [i \in 1..Len(c) |-> c[Len(c) + 1 - i]]                   \* column 3: column 1 reversed
+Col4(c) == [i \in 1..Len(c) |-> IF i = 1 THEN 4 ELSE 2]             \* column 4: fixed pattern
 NeedsNames(f) == \E i \in 1..Len(f.named) : f.named[i] = 1
 
 Init == stage = 0 /\ scn = <<>> /\ out = <<>>
@@ -21,11 +26,11 @@ Next ==
   \/ Pick(0, Cols)
   \/ stage = 1 /\ \E y \in {c \in Cols : Len(c) = Len(scn[1])} : scn' = Append(scn, y) /\ stage' = 2 /\ UNCHANGED out
   \/ Pick(2, Containers)
-  \/ stage = 3 /\ \E f \in Forms : (NeedsNames(f) => scn[3] \notin {"array-int", "array-float"})
+  \/ stage = 3 /\ \E f \in (IF Four THEN Forms4 ELSE Forms) : (NeedsNames(f) => scn[3] \notin {"array-int", "array-float"})
                                    /\ scn' = Append(scn, f) /\ stage' = 4 /\ UNCHANGED out
   \/ /\ stage = 4
-     /\ LET req == Requested(scn[4], 2)
-            col(c) == IF c = 0 THEN scn[1] ELSE scn[2]
+     /\ LET req == Requested(scn[4], IF Four THEN 4 ELSE 2)
+            col(c) == CASE c = 0 -> scn[1] [] c = 1 -> scn[2] [] c = 2 -> Col3(scn[1]) [] OTHER -> Col4(scn[2])
         IN out' = [scalar |-> ScalarResult(scn[4]),
                    per |-> [j \in 1..Len(req) |-> ColStats(col(req[j]), Wide)]]
      /\ stage' = 100 /\ UNCHANGED scn
@@ -34,7 +39,7 @@ Spec == Init /\ [][Next]_vars
 Done == stage = 100
 (* identities of the definitions themselves *)
 ModeIsMostFrequent == Done => \A j \in 1..Len(out.per) : out.per[j].modes # {}
-MedianBetween == Done => \A j \in 1..Len(out.per) :
+MedianBetween == (Done /\ ~Four) => \A j \in 1..Len(out.per) :
    LET m == out.per[j].median  c == IF Requested(scn[4], 2)[j] = 0 THEN scn[1] ELSE scn[2] IN
    \A i \in 1..Len(c) : \E k \in 1..Len(c) : c[k] * m[2] <= m[1] /\ \E k2 \in 1..Len(c) : c[k2] * m[2] >= m[1]
 VarNonNeg == (Done /\ ~Wide) => \A j \in 1..Len(out.per) : out.per[j].var[1] >= 0
